@@ -297,7 +297,7 @@ def encTime (n : Int) : Except Err Json :=
 
 def keyString : Json → Except Err String
   | .str s => .ok s
-  | _ => .error .panic                          -- `k.(string)` in mapEncodeMapKVPair
+  | _ => .error .err                            -- the key's map form is not a string (`k.(string)` in mapEncodeMapKVPair, an error since the fix of the unchecked assertion)
 
 def encList (f : Val → Except Err Json) (xs : List Val) : Except Err Json :=
   (xs.mapM f).map Json.arr
@@ -623,7 +623,7 @@ Excluded, with the reason:
 * a typed byte array whose key is `type` — the two members collide; a pointer to a typed `[]byte`
   (no pointer-to-slice branch);
 * map keys other than string / 64-bit integer / untyped byte array — a JSON member name is a
-  string, the encoder panics on anything else (`k.(string)`); float, time, pointer and
+  string, the encoder refuses anything else (checked `k.(string)`, an error since fix round 6); float, time, pointer and
   self-serialising keys are not modelled;
 * structs whose flattened key list (own `type`, named keys, keys of embedded and inlined structs
   incl. their `type`) has duplicates — `orderedmap.Set` overwrites;
